@@ -141,7 +141,7 @@ public:
     }
 
     static Timers Reduce(const ReduceType& inOther1, const ReduceType& inOther2){
-        return Timers::Reduce(inOther1.counters, inOther2.counters);
+        return Timers::Reduce(inOther1, inOther2);
     }
 };
 
